@@ -2094,7 +2094,7 @@ def run(ck: core.Check):
     ck.partial_gap = [
         "delivered_no_blank over whole sheets (no instantiated cell of a delivered row contains an undefined reference) is checked on the real compiler for every cell of the explored sheets, not proved: there is no Lean model of the templated row/sheet parser; the cell-level theorems are proved for all templates and contexts of the fragment",
         "Jinja expressions outside the fragment (filters other than escape / default, arithmetic, tests, set, comprehensions; dict literals with a repeated key; consumers that make an undefined object of their own: first/last of an empty sequence, an index out of range or into a dict) are not modelled — containers used by other filters / loops / + are checked by the direct oracle only (container stream). |length, |first, |last, [i], |join over containers ARE modelled (`CExpr`): F-C16-d's trigger on them is the Lean predicate NamesUndef ∧ ¬UsedUndef; `{% if e %}` / `{% for %}` / `{% set %}` over a container stay with the hand-written known-finding stream (the `Tmpl` type has no statement over an expression)",
-        "`UsedUndef` is defined on the value the expression evaluates to (evaluation failed on an undefined object, or the value handed to the printer / the caller still holds one); render_error_iff_used ties BOTH uses (print walk, native search) to it; the purely syntactic (skeleton) characterisation is stated as `used_structural_full`, not proved",
+        "`UsedUndef` is defined on the value the expression evaluates to (evaluation failed on an undefined object, or the value handed to the printer / the caller still holds one); render_error_iff_used ties BOTH uses (print walk, native search) to it; structural laws for every consumer applied directly to a literal are proved (used_len/coll/first_cons/last_coll/index_coll/join_coll/…_dict, consumer_used_mono); the exact law for a consumer applied to another consumer's result (`selecting_composes_full`) — i.e. a closed syntactic recursion — is not proved",
     ]
 
     # ---- B + C at the cell level
